@@ -76,8 +76,8 @@ Definition flush_changes (h : handle) : St -> St * res handle := fun s =>
     | (s1, Ok _) =>
       match stream_len (h_id h) s1 with
       | (s2, Ok len) =>
-        (* the directory entry has the last word on the length *)
-        (s2, Ok (mkHandle (h_id h) len (h_buf h) (h_off h) false))
+        (* another handle may have grown the stream: adopt the entry's length when it is larger *)
+        (s2, Ok (mkHandle (h_id h) (N.max (h_total h) len) (h_buf h) (h_off h) false))
       | (s2, Err k) => (s2, Err k) | (s2, Panic p) => (s2, Panic p) | (s2, OutOfFuel) => (s2, OutOfFuel)
       end
     | (s1, Err k) => (s1, Err k) | (s1, Panic p) => (s1, Panic p) | (s1, OutOfFuel) => (s1, OutOfFuel)
